@@ -6,6 +6,7 @@ import IcyVerif.Drv.Crc
 import IcyVerif.Drv.Font
 import IcyVerif.Drv.IcyDraw
 import IcyVerif.Drv.Igs
+import IcyVerif.Drv.Loaders
 import IcyVerif.Drv.Palette
 import IcyVerif.Drv.Rip
 import IcyVerif.Drv.Sauce
@@ -28,6 +29,7 @@ def dispatch (line : String) : String :=
   | "font" :: rest => Font.handle rest
   | "icydraw" :: rest => IcyDraw.handle rest
   | "igs" :: rest => Igs.handle rest
+  | "loaders" :: rest => Loaders.handle rest
   | "palette" :: rest => Palette.handle rest
   | "rip" :: rest => Rip.handle rest
   | "sauce" :: rest => Sauce.handle rest
